@@ -2,12 +2,13 @@
 //
 // Child module of client/mod.rs: sees the private fields and functions of MqttClientImpl.
 // Properties: C19 (reconnect back-off), C11 (no panic for accepted configurations).
-use super::{MqttClientImpl, ClientImplState, ClientEvent};
+use super::{MqttClientImpl, ClientImplState, ClientEvent, StopOptionsInternal, OperationOptions};
 use crate::client::config::{ReconnectOptions, ExponentialBackoffJitterType, ConnectOptions, OfflineQueuePolicy,
     ProtocolMode, PostReconnectQueueDrainPolicy, MqttClientOptions};
 use crate::protocol::{ProtocolState, ProtocolStateConfig, NetworkEventContext, NetworkEvent};
-use crate::mqtt::{ConnackPacket, ConnectReasonCode};
-use crate::error::GneissResult;
+use crate::mqtt::{ConnackPacket, ConnectReasonCode, MqttPacket, DisconnectPacket};
+use crate::error::{GneissResult, GneissError};
+use crate::protocol::ProtocolStateType;
 use std::sync::Arc;
 use std::collections::VecDeque;
 use std::time::{Duration, Instant};
@@ -298,3 +299,274 @@ fn c11_connect_timeout_any_duration() {
     assert!(c.current_state == ClientImplState::Connected);
     std::mem::forget(r); std::mem::forget(c);
 }
+
+// ------------------------------------------------------------------------------------------------
+// C12 (decision/transition level only): which transition is pursued, and which lifecycle events one transition emits
+// ------------------------------------------------------------------------------------------------
+
+fn any_client_state() -> ClientImplState {
+    match kani::any::<u8>() % 5 { 0 => ClientImplState::Stopped, 1 => ClientImplState::Connecting, 2 => ClientImplState::Connected, 3 => ClientImplState::PendingReconnect, _ => ClientImplState::Shutdown }
+}
+
+fn stop_options(kind: u8) -> Option<StopOptionsInternal> {
+    match kind { 0 => None, 1 => Some(StopOptionsInternal { disconnect: None }),
+                 _ => Some(StopOptionsInternal { disconnect: Some(Box::new(MqttPacket::Disconnect(DisconnectPacket { ..Default::default() }))) }) }
+}
+
+fn decision_body(stop_kind: u8) {
+    let mut opts = any_options(any_jitter());
+    opts.normalize();
+    let mut c = mk_client(opts, opts.base_reconnect_period);
+    c.current_state = any_client_state();
+    c.desired_state = match kani::any::<u8>() % 3 { 0 => ClientImplState::Stopped, 1 => ClientImplState::Connected, _ => ClientImplState::Shutdown };
+    c.desired_stop_options = stop_options(stop_kind);
+    let got = c.compute_optional_state_transition();
+    let wants_connection = c.desired_state == ClientImplState::Connected;
+    let expect = match c.current_state {
+        ClientImplState::Stopped => match c.desired_state { ClientImplState::Connected => Some(ClientImplState::Connecting), ClientImplState::Shutdown => Some(ClientImplState::Shutdown), _ => None },
+        // a stop (or close) request is pursued at once while connecting or waiting to reconnect ...
+        ClientImplState::Connecting | ClientImplState::PendingReconnect => if wants_connection { None } else { Some(ClientImplState::Stopped) },
+        // ... and while connected, unless a user-requested DISCONNECT still has to be written first
+        ClientImplState::Connected => if wants_connection || stop_kind == 2 { None } else { Some(ClientImplState::Stopped) },
+        // close is terminal
+        _ => None,
+    };
+    kani::cover!(got == Some(ClientImplState::Stopped), "a stop is pursued");
+    assert!(got == expect, "gv: the transition pursued must follow the desired state (stop always stops, close is terminal)");
+    std::mem::forget(c);
+}
+
+/// one transition and the lifecycle events it emits; engine entry point and listener broadcast recorded
+fn transition_events_body(old: ClientImplState, requested: ClientImplState, desired: ClientImplState, connack_ok: bool) {
+    let mut opts = any_options(any_jitter());
+    opts.normalize();
+    let mut c = mk_client(opts, opts.base_reconnect_period);
+    c.current_state = old;
+    c.desired_state = desired;
+    let start = zero_instant() + Duration::from_secs(kani::any::<u32>() as u64);
+    c.last_start_connect_time = Some(start);
+    c.last_connack = if connack_ok { Some(ConnackPacket { reason_code: ConnectReasonCode::Success, ..Default::default() }) } else { None };
+    c.successful_connect_time = if connack_ok { Some(start) } else { None };
+    unsafe { CLOCK = Some(start + Duration::from_secs(kani::any::<u16>() as u64)); NET_EVENTS = 0; EV_N = 0; }
+    let r = c.transition_to_state(requested);
+    assert!(r.is_ok());
+    let n = unsafe { EV_N };
+    let ev = unsafe { EV_KIND };
+    // effective target: a reconnect wait that is no longer wanted becomes Stopped; Stopped becomes Shutdown when close was requested
+    let mut target = requested;
+    if target == ClientImplState::PendingReconnect && desired != ClientImplState::Connected { target = ClientImplState::Stopped; }
+    if target == ClientImplState::Stopped && desired == ClientImplState::Shutdown { target = ClientImplState::Shutdown; }
+    assert!(c.current_state == target);
+    let mut want: [u8; 4] = [0; 4];
+    let mut k = 0;
+    // every attempt is reported ...
+    if target == ClientImplState::Connecting { want[k] = 1; k += 1; }
+    // ... and followed by exactly one outcome: a failure, or (after a success) exactly one disconnection
+    if old == ClientImplState::Connecting && target != ClientImplState::Connected { want[k] = 3; k += 1; }
+    if old == ClientImplState::Connected { want[k] = if connack_ok { 4 } else { 3 }; k += 1; }
+    // a stop that is reached is announced once
+    if target == ClientImplState::Stopped { want[k] = 5; k += 1; }
+    assert!(n == k, "gv: a transition emits exactly its lifecycle events");
+    let mut i = 0;
+    while i < k { assert!(ev[i] == want[i], "gv: lifecycle events in order: attempt, outcome, stopped"); i += 1; }
+    std::mem::forget(r); std::mem::forget(c);
+}
+
+// @gv props=C12 tier=quick required=yes fns=MqttClientImpl::compute_optional_state_transition
+// @gv bounds="every current state x desired state, no stop options"
+#[kani::proof]
+#[kani::unwind(4)]
+#[kani::stub(std::fmt::format, stub_format)]
+#[kani::stub(std::hash::RandomState::new, stub_random_state_new)]
+fn c12_decision_no_stop_options() { decision_body(0) }
+
+// @gv props=C12 tier=quick required=yes fns=MqttClientImpl::compute_optional_state_transition
+// @gv bounds="every current state x desired state, stop requested without a DISCONNECT packet"
+#[kani::proof]
+#[kani::unwind(4)]
+#[kani::stub(std::fmt::format, stub_format)]
+#[kani::stub(std::hash::RandomState::new, stub_random_state_new)]
+fn c12_decision_stop_plain() { decision_body(1) }
+
+// @gv props=C12 tier=quick required=yes fns=MqttClientImpl::compute_optional_state_transition
+// @gv bounds="every current state x desired state, stop requested with a DISCONNECT packet still to be written"
+#[kani::proof]
+#[kani::unwind(4)]
+#[kani::stub(std::fmt::format, stub_format)]
+#[kani::stub(std::hash::RandomState::new, stub_random_state_new)]
+fn c12_decision_stop_with_disconnect() { decision_body(2) }
+
+// @gv props=C12 tier=quick required=yes fns=MqttClientImpl::transition_to_state,MqttClientImpl::reset_state_for_new_connection,MqttClientImpl::emit_connection_failure_event,MqttClientImpl::emit_disconnection_event
+// @gv bounds="one transition Stopped -> Connecting with desired state Connected (CONNACK success on this connection: false); symbolic clock, options and connect timeout"
+// @gv stubs="ProtocolState::handle_network_event -> recorder; MqttClientImpl::broadcast_event -> recorder; Instant::now -> symbolic instant"
+// @gv timeout=900
+#[kani::proof]
+#[kani::unwind(4)]
+#[kani::stub(std::fmt::format, stub_format)]
+#[kani::stub(std::hash::RandomState::new, stub_random_state_new)]
+#[kani::stub(std::time::Instant::now, stub_now_fixed)]
+#[kani::stub(crate::protocol::ProtocolState::handle_network_event, stub_handle_network_event)]
+#[kani::stub(crate::client::MqttClientImpl::broadcast_event, stub_broadcast)]
+fn c12_transition_stopped_connecting() { transition_events_body(ClientImplState::Stopped, ClientImplState::Connecting, ClientImplState::Connected, false) }
+
+// @gv props=C12 tier=quick required=yes fns=MqttClientImpl::transition_to_state,MqttClientImpl::reset_state_for_new_connection,MqttClientImpl::emit_connection_failure_event,MqttClientImpl::emit_disconnection_event
+// @gv bounds="one transition Connecting -> Connected with desired state Connected (CONNACK success on this connection: false); symbolic clock, options and connect timeout"
+// @gv stubs="ProtocolState::handle_network_event -> recorder; MqttClientImpl::broadcast_event -> recorder; Instant::now -> symbolic instant"
+// @gv timeout=900
+#[kani::proof]
+#[kani::unwind(4)]
+#[kani::stub(std::fmt::format, stub_format)]
+#[kani::stub(std::hash::RandomState::new, stub_random_state_new)]
+#[kani::stub(std::time::Instant::now, stub_now_fixed)]
+#[kani::stub(crate::protocol::ProtocolState::handle_network_event, stub_handle_network_event)]
+#[kani::stub(crate::client::MqttClientImpl::broadcast_event, stub_broadcast)]
+fn c12_transition_connecting_connected() { transition_events_body(ClientImplState::Connecting, ClientImplState::Connected, ClientImplState::Connected, false) }
+
+// @gv props=C12 tier=quick required=yes fns=MqttClientImpl::transition_to_state,MqttClientImpl::reset_state_for_new_connection,MqttClientImpl::emit_connection_failure_event,MqttClientImpl::emit_disconnection_event
+// @gv bounds="one transition Connecting -> PendingReconnect with desired state Connected (CONNACK success on this connection: false); symbolic clock, options and connect timeout"
+// @gv stubs="ProtocolState::handle_network_event -> recorder; MqttClientImpl::broadcast_event -> recorder; Instant::now -> symbolic instant"
+// @gv timeout=900
+#[kani::proof]
+#[kani::unwind(4)]
+#[kani::stub(std::fmt::format, stub_format)]
+#[kani::stub(std::hash::RandomState::new, stub_random_state_new)]
+#[kani::stub(std::time::Instant::now, stub_now_fixed)]
+#[kani::stub(crate::protocol::ProtocolState::handle_network_event, stub_handle_network_event)]
+#[kani::stub(crate::client::MqttClientImpl::broadcast_event, stub_broadcast)]
+fn c12_transition_connecting_failed() { transition_events_body(ClientImplState::Connecting, ClientImplState::PendingReconnect, ClientImplState::Connected, false) }
+
+// @gv props=C12 tier=quick required=yes fns=MqttClientImpl::transition_to_state,MqttClientImpl::reset_state_for_new_connection,MqttClientImpl::emit_connection_failure_event,MqttClientImpl::emit_disconnection_event
+// @gv bounds="one transition Connecting -> Stopped with desired state Stopped (CONNACK success on this connection: false); symbolic clock, options and connect timeout"
+// @gv stubs="ProtocolState::handle_network_event -> recorder; MqttClientImpl::broadcast_event -> recorder; Instant::now -> symbolic instant"
+// @gv timeout=900
+#[kani::proof]
+#[kani::unwind(4)]
+#[kani::stub(std::fmt::format, stub_format)]
+#[kani::stub(std::hash::RandomState::new, stub_random_state_new)]
+#[kani::stub(std::time::Instant::now, stub_now_fixed)]
+#[kani::stub(crate::protocol::ProtocolState::handle_network_event, stub_handle_network_event)]
+#[kani::stub(crate::client::MqttClientImpl::broadcast_event, stub_broadcast)]
+fn c12_transition_connecting_stop_requested() { transition_events_body(ClientImplState::Connecting, ClientImplState::Stopped, ClientImplState::Stopped, false) }
+
+// @gv props=C12 tier=quick required=yes fns=MqttClientImpl::transition_to_state,MqttClientImpl::reset_state_for_new_connection,MqttClientImpl::emit_connection_failure_event,MqttClientImpl::emit_disconnection_event
+// @gv bounds="one transition Connected -> PendingReconnect with desired state Connected (CONNACK success on this connection: true); symbolic clock, options and connect timeout"
+// @gv stubs="ProtocolState::handle_network_event -> recorder; MqttClientImpl::broadcast_event -> recorder; Instant::now -> symbolic instant"
+// @gv timeout=900
+#[kani::proof]
+#[kani::unwind(4)]
+#[kani::stub(std::fmt::format, stub_format)]
+#[kani::stub(std::hash::RandomState::new, stub_random_state_new)]
+#[kani::stub(std::time::Instant::now, stub_now_fixed)]
+#[kani::stub(crate::protocol::ProtocolState::handle_network_event, stub_handle_network_event)]
+#[kani::stub(crate::client::MqttClientImpl::broadcast_event, stub_broadcast)]
+fn c12_transition_connected_lost() { transition_events_body(ClientImplState::Connected, ClientImplState::PendingReconnect, ClientImplState::Connected, true) }
+
+// @gv props=C12 tier=quick required=yes fns=MqttClientImpl::transition_to_state,MqttClientImpl::reset_state_for_new_connection,MqttClientImpl::emit_connection_failure_event,MqttClientImpl::emit_disconnection_event
+// @gv bounds="one transition Connected -> PendingReconnect with desired state Connected (CONNACK success on this connection: false); symbolic clock, options and connect timeout"
+// @gv stubs="ProtocolState::handle_network_event -> recorder; MqttClientImpl::broadcast_event -> recorder; Instant::now -> symbolic instant"
+// @gv timeout=900
+#[kani::proof]
+#[kani::unwind(4)]
+#[kani::stub(std::fmt::format, stub_format)]
+#[kani::stub(std::hash::RandomState::new, stub_random_state_new)]
+#[kani::stub(std::time::Instant::now, stub_now_fixed)]
+#[kani::stub(crate::protocol::ProtocolState::handle_network_event, stub_handle_network_event)]
+#[kani::stub(crate::client::MqttClientImpl::broadcast_event, stub_broadcast)]
+fn c12_transition_connected_rejected() { transition_events_body(ClientImplState::Connected, ClientImplState::PendingReconnect, ClientImplState::Connected, false) }
+
+// @gv props=C12 tier=quick required=yes fns=MqttClientImpl::transition_to_state,MqttClientImpl::reset_state_for_new_connection,MqttClientImpl::emit_connection_failure_event,MqttClientImpl::emit_disconnection_event
+// @gv bounds="one transition Connected -> PendingReconnect with desired state Stopped (CONNACK success on this connection: true); symbolic clock, options and connect timeout"
+// @gv stubs="ProtocolState::handle_network_event -> recorder; MqttClientImpl::broadcast_event -> recorder; Instant::now -> symbolic instant"
+// @gv timeout=900
+#[kani::proof]
+#[kani::unwind(4)]
+#[kani::stub(std::fmt::format, stub_format)]
+#[kani::stub(std::hash::RandomState::new, stub_random_state_new)]
+#[kani::stub(std::time::Instant::now, stub_now_fixed)]
+#[kani::stub(crate::protocol::ProtocolState::handle_network_event, stub_handle_network_event)]
+#[kani::stub(crate::client::MqttClientImpl::broadcast_event, stub_broadcast)]
+fn c12_transition_connected_stop_requested() { transition_events_body(ClientImplState::Connected, ClientImplState::PendingReconnect, ClientImplState::Stopped, true) }
+
+// @gv props=C12 tier=quick required=yes fns=MqttClientImpl::transition_to_state,MqttClientImpl::reset_state_for_new_connection,MqttClientImpl::emit_connection_failure_event,MqttClientImpl::emit_disconnection_event
+// @gv bounds="one transition Connected -> PendingReconnect with desired state Shutdown (CONNACK success on this connection: true); symbolic clock, options and connect timeout"
+// @gv stubs="ProtocolState::handle_network_event -> recorder; MqttClientImpl::broadcast_event -> recorder; Instant::now -> symbolic instant"
+// @gv timeout=900
+#[kani::proof]
+#[kani::unwind(4)]
+#[kani::stub(std::fmt::format, stub_format)]
+#[kani::stub(std::hash::RandomState::new, stub_random_state_new)]
+#[kani::stub(std::time::Instant::now, stub_now_fixed)]
+#[kani::stub(crate::protocol::ProtocolState::handle_network_event, stub_handle_network_event)]
+#[kani::stub(crate::client::MqttClientImpl::broadcast_event, stub_broadcast)]
+fn c12_transition_connected_close_requested() { transition_events_body(ClientImplState::Connected, ClientImplState::PendingReconnect, ClientImplState::Shutdown, true) }
+
+// @gv props=C12 tier=quick required=yes fns=MqttClientImpl::transition_to_state,MqttClientImpl::reset_state_for_new_connection,MqttClientImpl::emit_connection_failure_event,MqttClientImpl::emit_disconnection_event
+// @gv bounds="one transition PendingReconnect -> Connecting with desired state Connected (CONNACK success on this connection: false); symbolic clock, options and connect timeout"
+// @gv stubs="ProtocolState::handle_network_event -> recorder; MqttClientImpl::broadcast_event -> recorder; Instant::now -> symbolic instant"
+// @gv timeout=900
+#[kani::proof]
+#[kani::unwind(4)]
+#[kani::stub(std::fmt::format, stub_format)]
+#[kani::stub(std::hash::RandomState::new, stub_random_state_new)]
+#[kani::stub(std::time::Instant::now, stub_now_fixed)]
+#[kani::stub(crate::protocol::ProtocolState::handle_network_event, stub_handle_network_event)]
+#[kani::stub(crate::client::MqttClientImpl::broadcast_event, stub_broadcast)]
+fn c12_transition_pendingreconnect_retry() { transition_events_body(ClientImplState::PendingReconnect, ClientImplState::Connecting, ClientImplState::Connected, false) }
+
+// @gv props=C12 tier=quick required=yes fns=MqttClientImpl::transition_to_state,MqttClientImpl::reset_state_for_new_connection,MqttClientImpl::emit_connection_failure_event,MqttClientImpl::emit_disconnection_event
+// @gv bounds="one transition PendingReconnect -> Stopped with desired state Stopped (CONNACK success on this connection: false); symbolic clock, options and connect timeout"
+// @gv stubs="ProtocolState::handle_network_event -> recorder; MqttClientImpl::broadcast_event -> recorder; Instant::now -> symbolic instant"
+// @gv timeout=900
+#[kani::proof]
+#[kani::unwind(4)]
+#[kani::stub(std::fmt::format, stub_format)]
+#[kani::stub(std::hash::RandomState::new, stub_random_state_new)]
+#[kani::stub(std::time::Instant::now, stub_now_fixed)]
+#[kani::stub(crate::protocol::ProtocolState::handle_network_event, stub_handle_network_event)]
+#[kani::stub(crate::client::MqttClientImpl::broadcast_event, stub_broadcast)]
+fn c12_transition_pendingreconnect_stop() { transition_events_body(ClientImplState::PendingReconnect, ClientImplState::Stopped, ClientImplState::Stopped, false) }
+
+static mut ENGINE_FAILED: u32 = 0;
+fn stub_engine_fail(_this: &mut ProtocolState, _id: u64, error: GneissError) -> GneissResult<()> { unsafe { ENGINE_FAILED += 1; } std::mem::forget(error); Ok(()) }
+
+fn stop_request_body(engine_state: ProtocolStateType) {
+    let mut opts = any_options(any_jitter());
+    opts.normalize();
+    let mut c = mk_client(opts, opts.base_reconnect_period);
+    c.current_state = ClientImplState::Connected;      // transport established
+    c.desired_state = ClientImplState::Connected;
+    c.protocol_state.state = engine_state;             // CONNACK received (Connected) or still awaited (PendingConnack)
+    unsafe { CLOCK = Some(zero_instant() + Duration::from_secs(kani::any::<u32>() as u64)); ENGINE_FAILED = 0; }
+    c.handle_incoming_operation(OperationOptions::Stop(StopOptionsInternal { disconnect: Some(Box::new(MqttPacket::Disconnect(DisconnectPacket { ..Default::default() }))) }));
+    assert!(c.desired_state == ClientImplState::Stopped);
+    let pursued = c.compute_optional_state_transition() == Some(ClientImplState::Stopped);
+    let disconnect_queued = !c.protocol_state.high_priority_operation_queue.is_empty();
+    // a stop request always leads to Stopped: either the client leaves the connection now, or a DISCONNECT is on its way out
+    // (its write completion ends the connection); it must never be left waiting for a DISCONNECT that was thrown away
+    assert!(pursued || disconnect_queued, "gv: a stop request with a DISCONNECT packet must still stop the client when it arrives during the CONNECT/CONNACK handshake");
+    std::mem::forget(c);
+}
+
+// @gv props=C12 tier=thorough required=yes fns=MqttClientImpl::handle_incoming_operation,MqttClientImpl::compute_optional_state_transition,ProtocolState::handle_user_event
+// @gv bounds="stop request carrying a DISCONNECT packet while the MQTT connection is established (engine Connected)"
+// @gv stubs="ProtocolState::complete_operation_as_failure -> recorder; Instant::now -> symbolic instant"
+// @gv timeout=1500 mem=20
+#[kani::proof]
+#[kani::unwind(4)]
+#[kani::stub(std::fmt::format, stub_format)]
+#[kani::stub(std::hash::RandomState::new, stub_random_state_new)]
+#[kani::stub(std::time::Instant::now, stub_now_fixed)]
+#[kani::stub(crate::protocol::ProtocolState::complete_operation_as_failure, stub_engine_fail)]
+fn c12_stop_with_disconnect_connected() { stop_request_body(ProtocolStateType::Connected) }
+
+// @gv props=C12 tier=thorough required=yes fns=MqttClientImpl::handle_incoming_operation,MqttClientImpl::compute_optional_state_transition,ProtocolState::handle_user_event
+// @gv bounds="stop request carrying a DISCONNECT packet during the CONNECT/CONNACK handshake (transport up, engine PendingConnack)"
+// @gv stubs="ProtocolState::complete_operation_as_failure -> recorder; Instant::now -> symbolic instant"
+// @gv timeout=1500 mem=20
+#[kani::proof]
+#[kani::unwind(4)]
+#[kani::stub(std::fmt::format, stub_format)]
+#[kani::stub(std::hash::RandomState::new, stub_random_state_new)]
+#[kani::stub(std::time::Instant::now, stub_now_fixed)]
+#[kani::stub(crate::protocol::ProtocolState::complete_operation_as_failure, stub_engine_fail)]
+fn c12_stop_with_disconnect_during_handshake() { stop_request_body(ProtocolStateType::PendingConnack) }
